@@ -148,6 +148,10 @@ MacFilter(sc, c, v) ==
   \/ c.sel = <<"gin","macro">> /\ v \in MacValsM /\ sc \in {<<"W">>, <<"X">>}
   \/ c.sel = <<"m","g">> /\ v \in MacValsG /\ sc = <<>>
 MacBindVals == MacValsF \cup MacValsM \cup MacValsG
+\* constant abbreviations only (scenario export for C05)
+MacPctVals == { Pct(<<"X">>), Pct(<<"m","X">>), Pct(<<"Y">>) }
+MacPctFilter(sc, c, v) == c.sel = <<"m","f">> /\ v \in MacPctVals /\ sc = <<>>
+MacConstVals1 == {O1}
 \* macro definitions live under the macro's name as scope
 MacScopeNames == {"W", "X"}
 NamesMac == <<"p", "q", "value", "x">>
